@@ -805,6 +805,15 @@ func (ev *Ev) call(e *SExpr) *Val {
 			return mathVal(Ite(c, a.X, b.X))
 		}
 		return iteVal(c, a, b)
+	case "bebytes":
+		// bebytes(s): the big-endian magnitude of a byte slice of any length - the uninterpreted function the models of
+		// (*big.Int).Bytes / SetBytes use
+		v := ev.eval(args[0])
+		arr, off := ev.byteView(v)
+		if v.K != KSlice {
+			specFail("bebytes of non-slice")
+		}
+		return mathVal(App("be", SInt, arr, off, v.Len))
 	case "le64", "be64", "le", "be":
 		v := ev.eval(args[0])
 		arr, off := ev.byteView(v)
@@ -891,6 +900,18 @@ func (ev *Ev) call(e *SExpr) *Val {
 			specFail("bytesval of non-bytes")
 		}
 		return mathVal(ev.c.bytesVal(arr, off, ln))
+	case "arrbytes":
+		// arrbytes(a, n): the abstract byte string of the n-byte array value a
+		av := ev.eval(args[0])
+		var at *Term
+		if av.K == KArr {
+			at = arrAsInt(av)
+		} else if av.K == KInt || av.K == KMath {
+			at = av.X
+		} else {
+			specFail("arrbytes: array value expected")
+		}
+		return mathVal(App("arrbytes", SInt, at, ev.intTerm(args[1])))
 	case "blen":
 		return mathVal(App("blen", SInt, ev.intTerm(args[0])))
 	case "btail":
